@@ -57,7 +57,7 @@ type Explorer struct {
 
 	mu      sync.Mutex
 	cond    *sync.Cond
-	work    [][]int64
+	work    []workItem
 	active  int
 	stop    bool
 	Results []*PathResult
@@ -108,19 +108,29 @@ func (e *Explorer) wantSample() bool {
 	return true
 }
 
-func (e *Explorer) push(prefix []int64) {
+type workItem struct {
+	log  []int64
+	whys []string
+}
+
+func (in *interpreter) pushWork(prefix []int64) {
+	// whys recorded so far correspond 1:1 to log entries made through decide/decideValue/symbolicIf
+	in.ex.push(workItem{prefix, append([]string(nil), in.whys...)})
+}
+
+func (e *Explorer) push(prefix workItem) {
 	e.mu.Lock()
 	e.work = append(e.work, prefix)
 	e.mu.Unlock()
 	e.cond.Signal()
 }
 
-func (e *Explorer) pop() ([]int64, bool) {
+func (e *Explorer) pop() (workItem, bool) {
 	e.mu.Lock()
 	defer e.mu.Unlock()
 	for {
 		if e.stop {
-			return nil, false
+			return workItem{}, false
 		}
 		if n := len(e.work); n > 0 {
 			p := e.work[n-1]
@@ -130,7 +140,7 @@ func (e *Explorer) pop() ([]int64, bool) {
 		}
 		if e.active == 0 {
 			e.cond.Broadcast()
-			return nil, false
+			return workItem{}, false
 		}
 		e.cond.Wait()
 	}
@@ -139,8 +149,8 @@ func (e *Explorer) pop() ([]int64, bool) {
 func (e *Explorer) done(r *PathResult) {
 	if os.Getenv("GOSYM_PROGRESS") != "" {
 		msg := r.Msg
-		if len(msg) > 200 {
-			msg = msg[:200]
+		if len(msg) > 600 {
+			msg = msg[:600]
 		}
 		fmt.Fprintf(os.Stderr, "path kind=%s steps=%d decisions=%d pc=%d site=%s %s\n", r.Kind, r.Steps, r.Decisions, r.PCLen, r.Site, msg)
 	}
@@ -171,7 +181,7 @@ func (e *Explorer) done(r *PathResult) {
 
 // Run explores all paths of the harness.
 func (e *Explorer) Run() error {
-	e.work = [][]int64{nil}
+	e.work = []workItem{{}}
 	var wg sync.WaitGroup
 	errs := make(chan error, e.Cfg.Workers)
 	for w := 0; w < e.Cfg.Workers; w++ {
@@ -196,7 +206,8 @@ func (e *Explorer) Run() error {
 				if !ok {
 					break
 				}
-				r := in.runPath(e.fn, prefix)
+				in.expectWhys = prefix.whys
+				r := in.runPath(e.fn, prefix.log)
 				e.done(r)
 			}
 			e.mu.Lock()
@@ -254,6 +265,8 @@ func (in *interpreter) runPath(fn *ssa.Function, prefix []int64) (res *PathResul
 	in.clockN = 0
 	in.lastClock = nil
 	in.ufcache = map[string]value{}
+	in.pathNo++
+	in.whys = in.whys[:0]
 	in.model = nil
 	if in.tmp == nil {
 		in.tmp = map[string]any{}
@@ -397,7 +410,7 @@ func (in *interpreter) feasible(t *Term) bool {
 		return t.K != 0
 	}
 	// model cache: a model satisfying pc ∧ t proves feasibility without a query
-	if in.model != nil {
+	if in.model != nil && os.Getenv("GOSYM_NOMODELCACHE") == "" {
 		ok := true
 		for _, p := range in.pc {
 			if v, e := evalTerm(p, in.model, in.modelMemo); !e || v == 0 {
@@ -422,7 +435,16 @@ func (in *interpreter) feasible(t *Term) bool {
 
 // decide picks among mutually exclusive, exhaustive outcomes. Returns the outcome index;
 // the outcome's condition is added to the path condition unless it was forced.
+func (in *interpreter) noteWhy(why string) {
+	k := len(in.whys)
+	in.whys = append(in.whys, why)
+	if k < len(in.expectWhys) && in.expectWhys[k] != why {
+		panic(pathEnd{"inconclusive", fmt.Sprintf("replay divergence at decision %d: expected %q got %q", k, in.expectWhys[k], why)})
+	}
+}
+
 func (in *interpreter) decide(conds []*Term, why string) int {
+	in.noteWhy(why)
 	if in.pos < len(in.log) {
 		e := in.log[in.pos]
 		in.pos++
@@ -461,7 +483,7 @@ func (in *interpreter) decide(conds []*Term, why string) int {
 	}
 	base := append([]int64(nil), in.log...)
 	for _, k := range feas[1:] {
-		in.ex.push(append(append([]int64(nil), base...), int64(k)))
+		in.pushWork(append(append([]int64(nil), base...), int64(k)))
 	}
 	in.log = append(in.log, int64(feas[0]))
 	in.pos++
@@ -492,7 +514,7 @@ func (in *interpreter) choose(n int, why string) int {
 	}
 	base := append([]int64(nil), in.log...)
 	for k := 1; k < n; k++ {
-		in.ex.push(append(append([]int64(nil), base...), int64(k)))
+		in.pushWork(append(append([]int64(nil), base...), int64(k)))
 	}
 	in.log = append(in.log, 0)
 	in.pos++
@@ -504,6 +526,7 @@ func (in *interpreter) decideValue(t *Term, why string) uint64 {
 	if t.IsConst() {
 		return t.K
 	}
+	in.noteWhy("val:" + why)
 	c := in.ctx
 	if in.pos < len(in.log) {
 		e := in.log[in.pos]
@@ -534,7 +557,11 @@ func (in *interpreter) decideValue(t *Term, why string) uint64 {
 		excl = c.And(excl, c.Not(c.Eq(t, c.Const(t.W, v))))
 	}
 	if len(vals) == 0 {
-		panic(pathEnd{"infeasible", "no feasible value at " + why})
+		n := len(in.whys)
+		if n > 8 {
+			n = 8
+		}
+		panic(pathEnd{"infeasible", fmt.Sprintf("no feasible value at %s; last decisions %v log %v", why, in.whys[len(in.whys)-n:], in.log[max(0, len(in.log)-8):])})
 	}
 	if len(vals) > maxVals {
 		panic(pathEnd{"inconclusive", fmt.Sprintf("more than %d feasible values at %s", maxVals, why)})
@@ -552,7 +579,7 @@ func (in *interpreter) decideValue(t *Term, why string) uint64 {
 	}
 	base := append([]int64(nil), in.log...)
 	for _, v := range vals[1:] {
-		in.ex.push(append(append([]int64(nil), base...), int64(v)))
+		in.pushWork(append(append([]int64(nil), base...), int64(v)))
 	}
 	in.log = append(in.log, int64(vals[0]))
 	in.pos++
@@ -563,6 +590,7 @@ func (in *interpreter) decideValue(t *Term, why string) uint64 {
 // symbolicIf handles an If on a symbolic condition.
 func (fr *frame) symbolicIf(instr *ssa.If, c *Term) (bool, continuation) {
 	in := fr.i
+	in.noteWhy("if:" + fr.fn.Name())
 	if in.pos < len(in.log) {
 		e := in.log[in.pos]
 		in.pos++
@@ -588,6 +616,7 @@ func (fr *frame) symbolicIf(instr *ssa.If, c *Term) (bool, continuation) {
 	// simply sit behind an unreachable guard; this avoids two feasibility queries per branch.
 	if in.ex.Cfg.Merge {
 		mark := len(in.log)
+		wmark := len(in.whys)
 		in.log = append(in.log, entMerged)
 		in.pos++
 		if cont, ok := fr.tryMerge(instr, c); ok {
@@ -595,6 +624,7 @@ func (fr *frame) symbolicIf(instr *ssa.If, c *Term) (bool, continuation) {
 		}
 		in.log = in.log[:mark]
 		in.pos = mark
+		in.whys = in.whys[:wmark]
 	}
 	nc := in.ctx.Not(c)
 	f0 := in.feasible(c)
@@ -616,7 +646,7 @@ func (fr *frame) symbolicIf(instr *ssa.If, c *Term) (bool, continuation) {
 		panic(mergeAbort{"branch in arm"})
 	}
 	base := append([]int64(nil), in.log...)
-	in.ex.push(append(base, 1))
+	in.pushWork(append(base, 1))
 	in.log = append(in.log, 0)
 	in.pos++
 	in.pc = append(in.pc, c)
